@@ -9,3 +9,5 @@ INVARIANT ContentDistinct
 INVARIANT RefusedInsertChangesNothing
 INVARIANT Emit
 CHECK_DEADLOCK FALSE
+INVARIANT NoPanic
+INVARIANT EmitMixed
